@@ -8,7 +8,14 @@ for m in sorted(glob.glob(os.path.join(V, "seeded", "*", "meta.json"))):
     note = d.get("breaks", "").replace("\n", " ").replace("|", "/")
     ck = d.get("check", {})
     extra = d.get("also_caught_by", "")
-    rows.append(f"| {d['id']} | {d['property']} | {note[:400]} | {'yes' if ck.get('caught') else 'NO'} | {'failing input' if ck.get('with_failing_input') else ('no-failing-input-found' if ck.get('caught') else '-')} | {extra} |")
+    # current outcome: the last re-run of all seeds (tools/seed_all.py) if there is one, else the run at the time it was kept
+    st = d.get("recheck", {}).get("status") or ("failing-input" if ck.get("with_failing_input") else ("no-failing-input-found" if ck.get("caught") else "missed"))
+    if st == "missed" and d.get("recheck_thorough", {}).get("status", "missed") != "missed":
+        st = "quick tier: missed; thorough tier: " + d["recheck_thorough"]["status"]
+    was = "failing-input" if ck.get("with_failing_input") else ("no-failing-input-found" if ck.get("caught") else "missed")
+    if was != st and not st.startswith("quick"):
+        extra = (extra + f" (when kept: {was})").strip()
+    rows.append(f"| {d['id']} | {d['property']} | {note[:400]} | {'NO' if st == 'missed' else 'yes'} | {st} | {extra} |")
 out = ["# Seeded changes (realistic breakage written by independent sub-agents)", "",
        "Each directory holds `patch.diff` (apply with `git -C /repo apply`), the sub-agent's demonstration `demo_test.go`,",
        "its `note.md`, and `meta.json` (what was run to confirm it and what the property's quick check reported).",
